@@ -48,6 +48,7 @@ func (n *node[T]) buildIndexes() {
 	if n.indexes == nil {
 		n.indexes = make(map[byte]int, indexesSize)
 	}
+	clear(n.indexes)
 
 	for index, node := range n.children {
 		if node.segment.Type == syntax.String {
